@@ -98,6 +98,57 @@ def run_job(ctx, drv, job, tag):
         return json.load(fh)
 
 
+def parallel_stage(ctx, thorough):
+    """the real workers running freely, 4 at a time on 8 threads, under the race detector: every published message must be
+    the stand-alone message of one received datagram, none more often than datagrams produce it"""
+    import collections
+    drv = ctx.go_build_test("vflow", ["vflow/pipeline_verif_test.go"], race=True)
+    jobs = []
+    for proto in PROTOS:
+        for k in range(3 if thorough else 1):
+            j = make_job(ctx, proto, 4, ctx.seed * 1000 + 800 + k, 120 if thorough else 60)
+            j["free"] = True
+            if proto in ("ipfix", "sflow") and k % 2 == 0:
+                j["mirror"] = "on"
+            jobs.append(j)
+    for i, j in enumerate(jobs):
+        j["id"] = 900 + i
+    with concurrent.futures.ThreadPoolExecutor(max_workers=2) as ex:
+        results = list(ex.map(lambda j: run_job(ctx, drv, j, j["id"]), jobs))
+    for job, r in zip(jobs, results):
+        proto = job["proto"]
+        case = {"proto": proto, "workers": 4, "seed": job["seed"], "datagrams": len(job["data"]), "mode": "parallel, race detector", "mirror": job.get("mirror", "")}
+        ctx.count([proto, "parallel", job["seed"], len(job["data"])])
+        if "crash" in r:
+            if r.get("timeout"):
+                raise vlib.Infra("parallel pipeline driver timed out: " + r["crash"][-800:])
+            m = re.search(r"WARNING: DATA RACE.*?(?:\n==================|\Z)", r["crash"], re.S)
+            if m:
+                ctx.violation("%s pipeline, 4 workers in parallel: the workers share state they write without synchronisation (race detector): %s"
+                              % (proto, " / ".join(re.findall(r"^  (github[^\n(]*)", m.group(0), re.M)[:4])), dict(case, report=m.group(0)[:2500]),
+                              key=proto + ":parallel-race")
+                continue
+            why = next((l for l in r["crash"].split("\n") if l.startswith(("panic:", "fatal error:"))), None)
+            if why:
+                ctx.violation("%s pipeline, 4 workers in parallel: the worker process died: %s" % (proto, why), dict(case, log=r["crash"][-1500:]), key=proto + ":died")
+                continue
+            raise vlib.Infra("parallel pipeline driver failed: " + r["crash"][-800:])
+        norm = (lambda b: re.sub(rb'"ColTime":\d+', b'"ColTime":0', b)) if proto == "sflow" else (lambda b: b)
+        exp = collections.Counter(norm(base64.b64decode(x)) for x in r["expected"] if x)
+        got = collections.Counter(norm(base64.b64decode(p)) for p in (r.get("payloads") or []))
+        for pb, n in got.items():
+            ctx.count([proto, "parallel-payload", job["seed"], pb[:80].decode("latin1"), len(pb)])
+            if n > exp.get(pb, 0):
+                ctx.violation("%s pipeline, 4 workers in parallel: a published message %s: %s"
+                              % (proto, "is not what decoding any single received datagram on its own produces" if pb not in exp else
+                                 "appears %d times, the datagrams that produce it arrived %d times" % (n, exp[pb]), pb[:160]),
+                              dict(case, payload=pb.decode("utf-8", "replace")[:1500]), key=proto + ":parallel-payload")
+                break
+        ctx.extra.setdefault("parallel_runs", []).append({"proto": proto, "datagrams": len(job["data"]), "expected_messages": sum(exp.values()),
+                                                          "published": sum(got.values()), "mirror": job.get("mirror", "")})
+        ctx.traces_validated += 1
+
+
 def check(ctx, want="C12"):
     thorough = ctx.tier == "thorough"
     ctx.rule = ("model: Pipeline.tla (receive loop, 2 workers, 3 datagrams (data / template-only / malformed), 3-4 pooled buffers, bounded "
@@ -122,6 +173,8 @@ def check(ctx, want="C12"):
     ctx.tlc_model("PipelineMC", "mir.cfg", files={"mir.cfg": pipe_cfg(dg="MCDgrams2", bufs=mb, mirror="TRUE")}, timeout=1800, heap="12g")
     ctx.tlc_must_fail("PipelineMC", "mirdev.cfg", files={"mirdev.cfg": pipe_cfg(dg="MCDgrams2", bufs=mb, mirror="TRUE", mirown="TRUE")},
                       expect="NoUseAfterPut", workers=16)
+    if want == "C12":
+        parallel_stage(ctx, thorough)
     drv = ctx.go_build_test("vflow", ["vflow/pipeline_verif_test.go"])
     jobs = []
     nrun = 10 if thorough else 3
